@@ -6,6 +6,7 @@ package pool
 import (
 	"context"
 	"fmt"
+	"log/slog"
 	"sync"
 	"time"
 
@@ -85,6 +86,8 @@ type Stage struct {
 	Gate  bool   `json:"gate,omitempty"`
 	Inner *Stage `json:"inner,omitempty"` // fork
 	Xs    []int  `json:"xs,omitempty"`    // seq
+
+	exx chan error // stderr: the error channel the driver feeds instead of input 0
 }
 
 type errVal int
@@ -92,6 +95,24 @@ type errVal int
 func (e errVal) Error() string { return fmt.Sprintf("E%d", int(e)) }
 
 const tick = time.Millisecond
+
+// slog handler recording the errors pipe.StdErr logs
+type logRec struct{ c *calls }
+
+func (h *logRec) Enabled(context.Context, slog.Level) bool { return true }
+func (h *logRec) Handle(_ context.Context, r slog.Record) error {
+	v := -1
+	r.Attrs(func(a slog.Attr) bool {
+		if e, ok := a.Value.Any().(errVal); ok {
+			v = int(e)
+		}
+		return true
+	})
+	h.c.enter(v)
+	return nil
+}
+func (h *logRec) WithAttrs([]slog.Attr) slog.Handler { return h }
+func (h *logRec) WithGroup(string) slog.Handler      { return h }
 
 // recorder of user-function calls and gates
 type calls struct {
@@ -303,6 +324,16 @@ func build(ctx context.Context, s *Stage, ins []chan int, c *calls) []output {
 			drained = drained[1:]
 			return v, false, true
 		}}}
+	case "stderr":
+		// pipe.StdErr(out, exx) returns out itself and starts a goroutine that reads exx until it is closed,
+		// logging every non-nil error through slog; the log records are the observed "calls"
+		s.exx = make(chan error, cap(ins[0]))
+		slog.SetDefault(slog.New(&logRec{c: c}))
+		out := make(chan int)
+		if ret := pipe.StdErr[int](out, s.exx); ret != (<-chan int)(out) {
+			panic("StdErr: returned another channel")
+		}
+		return nil
 	case "throttle":
 		o := outInt(pipe.Throttling(ctx, roIns[0], s.Ops, time.Duration(s.Freq)*tick))
 		return []output{o, {cap: s.Ops}} // out 1 = the internal token channel (not observable): capacity ops by construction
